@@ -1,0 +1,89 @@
+// SPDX-FileCopyrightText: 2026 The Pion community <https://pion.ly>
+// SPDX-License-Identifier: MIT
+
+//go:build verif
+
+// Contracts (comment-only) for property C16 (equality laws).
+// baseOf(o): the candidateBase embedded in candidate o.
+
+package ice
+
+//@ spec macro baseOf(o Candidate) = ite(istype(o, *candidateBase), cast(o.payload, *candidateBase), ite(istype(o, *CandidateHost), &cast(o.payload, *CandidateHost).candidateBase, ite(istype(o, *CandidateServerReflexive), &cast(o.payload, *CandidateServerReflexive).candidateBase, ite(istype(o, *CandidatePeerReflexive), &cast(o.payload, *CandidatePeerReflexive).candidateBase, &cast(o.payload, *CandidateRelay).candidateBase))))
+
+// Getter methods of the Candidate interface, stated once for all implementors and
+// checked against each of them (conforms): every implementor forwards to its
+// embedded candidateBase.
+//@ iface ice.Candidate.NetworkType (this) (result)
+//@   props C16 C17
+//@   pure
+//@   conforms
+//@   ensures result == baseOf(this).networkType
+//@ iface ice.Candidate.Address (this) (result)
+//@   props C16
+//@   pure
+//@   conforms
+//@   ensures result == baseOf(this).address
+//@ iface ice.Candidate.Port (this) (result)
+//@   props C16
+//@   pure
+//@   conforms
+//@   ensures result == baseOf(this).port
+//@ iface ice.Candidate.TCPType (this) (result)
+//@   props C16
+//@   pure
+//@   conforms
+//@   ensures result == baseOf(this).tcpType
+//@ iface ice.Candidate.Type (this) (result)
+//@   props C16 C17
+//@   pure
+//@   conforms
+//@   ensures result == baseOf(this).candidateType
+//@ iface ice.Candidate.RelatedAddress (this) (result)
+//@   props C16
+//@   pure
+//@   conforms
+//@   ensures result == baseOf(this).relatedAddress
+//@ iface ice.Candidate.addr (this) (result)
+//@   props C16
+//@   pure
+//@   conforms
+//@   ensures result == baseOf(this).resolvedAddr
+//@ iface ice.Candidate.Component (this) (result)
+//@   props C16 C17
+//@   pure
+//@   conforms
+//@   ensures result == baseOf(this).component
+
+//@ func (*CandidateRelatedAddress).Equal
+//@   props C16
+//@   pure
+//@   ensures definition: result == ((c == nil && other == nil) || (c != nil && other != nil && c.Address == other.Address && c.Port == other.Port))
+//@   ensures reflexive: c == other ==> result
+
+//@ func (*candidateBase).Extensions
+//@   props C16
+//@   ensures length: len(result) == len(c.extensions) + ite(c.tcpType != TCPTypeUnspecified, 1, 0)
+//@   ensures fresh-slice: fresh(result)
+
+//@ func (*candidateBase).transportAddressEqual
+//@   props C16
+//@   pure
+//@   ensures reflexive: other != nil && baseOf(other) == c ==> result
+
+//@ func (*candidateBase).Equal
+//@   props C16
+//@   pure
+//@   ensures reflexive: other != nil && baseOf(other) == c ==> result
+
+//@ func (*candidateBase).DeepEqual
+//@   props C16
+//@   ensures implies-equal: result ==> old(c.Equal(other))
+//@   ensures reflexive: other != nil && baseOf(other) == c ==> result
+
+//@ func addrEqual
+//@   props C16
+//@   pure
+
+//@ func parseAddr
+//@   props C16
+//@   pure
